@@ -9,7 +9,7 @@ open Ak Ak.Proto CliGraph
 new <sw> <default|-> <decl>...     -> ok | err AssertionError     (sw = three bits: _no_log, _no_log_file, _help_if_no_args)
 single <sw>                        -> ok                          (ArgParser without commands)
 deps                               -> deps <name>:<dep>/<dep> ...        (internal, diagnostic)
-opt <parser|*> <flag|value|pos1|pos?|pos*|pos+> <string>...   -> ok | err ArgumentError | err ValueError | err AssertionError
+opt <parser|*> <flag|flagoff|const=V|value|pos1|pos?|pos*|pos+>[@dest] <string>...   -> ok | err ArgumentError | err ValueError | err AssertionError
 parse <token>...                   -> ok <dest>=<value> ... | err SystemExit <code> | err <Exception>
 parse2 <token>...                  -> <reply of parse> | <reply of a second parse_args with the same list object>
 lst <token>...                     -> L:<the caller's list after parse_args>                        (diagnostic)
@@ -88,10 +88,25 @@ def showRes : Except Fail Ns → String
 def showList (l : List (Option Name)) : String :=
   "L:" ++ "/".intercalate (l.map fun x => match x with | some n => showCps n | none => "N")
 
-def parseKind (k : String) : Option Kind :=
-  if k = "flag" then some .flag else if k = "value" then some .value
-  else if k = "pos1" then some (.pos .one) else if k = "pos?" then some (.pos .opt)
-  else if k = "pos*" then some (.pos .star) else if k = "pos+" then some (.pos .plus) else none
+/-- `flag`, `flagoff`, `const=<cps>`, `value`, `pos1`, `pos?`, `pos*`, `pos+`, each optionally followed by `@<dest cps>` -/
+def parseKind (t : String) : Option (Kind × Option Name) :=
+  let parts := t.splitOn "@"
+  let dest : Option (Option Name) := match parts with
+    | [_] => some none
+    | [_, d] => (parseCps d).map some
+    | _ => none
+  let k := match parts with
+    | k :: _ => k
+    | [] => ""
+  let kind : Option Kind :=
+    if k = "flag" then some .flag else if k = "flagoff" then some .flagOff else if k = "value" then some .value
+    else if k = "pos1" then some (.pos .one) else if k = "pos?" then some (.pos .opt)
+    else if k = "pos*" then some (.pos .star) else if k = "pos+" then some (.pos .plus)
+    else if k.startsWith "const=" then (parseCps (k.drop 6).toString).map Kind.const
+    else none
+  match kind, dest with
+  | some kd, some d => some (kd, d)
+  | _, _ => none
 
 def handle (s : DSt) (line : String) : DSt × String :=
   match splitWs line with
@@ -113,7 +128,7 @@ def handle (s : DSt) (line : String) : DSt × String :=
       match ap.mode with
       | .multi st =>
         (s, " ".intercalate ("deps" :: st.parsers.map fun q =>
-          showCps q.name ++ ":" ++ "/".intercalate (q.deps.map showCps)))
+          showCps q.name ++ ":" ++ "/".intercalate (q.deps.reverse.map showCps)))
       | .single _ => (s, "deps")
     | .poisoned => (s, "poisoned")
     | .empty => (s, "no-parser")
@@ -123,10 +138,11 @@ def handle (s : DSt) (line : String) : DSt × String :=
     | .poisoned => (s, "poisoned")
     | .ready ap =>
       match (if target = "*" then some none else (parseCps target).map some), parseKind kind, parseStrs strs with
-      | some tg, some k, some ss =>
-        if ss.isEmpty || !(ss.all (optStringOk k.isPos)) || (k.isPos && ss.length != 1) then (s, "bad-op")
+      | some tg, some (k, dst), some ss =>
+        if ss.isEmpty || !(ss.all (optStringOk k.isPos)) || (k.isPos && (ss.length != 1 || dst.isSome))
+            || !ss.Nodup then (s, "bad-op")
         else
-          match ap.addOption tg { strings := ss, kind := k, mutex := false } with
+          match ap.addOption tg { strings := ss, kind := k, mutex := false, dest := dst } with
           | .ok ap' => (.ready ap', "ok")
           | .error (.exc e) => (s, "err " ++ e.name)      -- get_cmd_parser failed: nothing was touched
           | .error e => (.poisoned, showFail e)
